@@ -588,7 +588,7 @@ func judgeConc(r *vf.Run, w *world, c *concCase, logs [][]event) {
 		return
 	}
 	sc := &seqCase{idx: c.idx, directed: "epilogue of concurrent case", ims: c.ims, keys: c.keys, wc: c.wc}
-	s := &seqRun{r: r, c: sc, w: w, rng: r.RNG(22, uint64(c.idx)),
+	s := &seqRun{r: r, c: sc, w: w, drv: inproc{w}, rng: r.RNG(22, uint64(c.idx)),
 		uses: map[int]int{}, imgUses: map[int]int{}, usedInEpoch: map[string]bool{}, lookedHeld: map[int]bool{},
 		dropped: map[int]string{}, faultedRef: map[int]bool{}, zeroThenOK: map[int]bool{}, pending: map[int]bool{}}
 	s.stage = "conc-epilogue"
